@@ -1712,3 +1712,8 @@ fn extend_to_bits(v: &mut Vec<usize>, ty: &Type, bits: usize) {
 fn is_signed(ty: &Type) -> bool {
     matches!(ty, Type::Signed(_))
 }
+
+#[cfg(feature = "verif_hooks")]
+pub(crate) fn verif_extend_to_bits(v: &mut Vec<usize>, ty: &Type, bits: usize) {
+    extend_to_bits(v, ty, bits)
+}
